@@ -93,6 +93,14 @@ def gen(rng, tier):
     cases.append("sse S0,c,x74,R65512:61 W")                  # 9 + 65519 = 65528
     cases.append("sse S0,c,x74,R65513:61 W")                  # 65529
     cases.append("sse S0,m,R21000:c3a9 W")                    # non-ASCII, 42007 bytes
+    # CRLF line ends inside the data count as ONE terminator each: events that fit exactly / by one byte although an
+    # estimate that counts CR and LF separately would not
+    cases.append("sse S0,m,R8190:610d0a+x61 W S0,m,x62 W")                        # 8191 lines of 'a': 8 * 8191 = 65528
+    cases.append("sse S0,m,R8189:610d0a+x61 W S0,m,x62 W")                        # 65520
+    cases.append("sse S0,m,R32000:61+x0d0a+R33500:62+x0d0a+R7:63 W S0,m,x64 W")   # 3 lines, 65528
+    cases.append("sse S0,m,R32000:61+x0d0a+R33500:62+x0d0a+R6:63 W S0,m,x64 W")   # 65527
+    cases.append("sse S0,c,x74,R32000:61+x0d0a+R33491:62 W S0,m,x64 W")           # custom type: 9 + 32007 + 33498 = 65514
+    cases.append("sse S0,m,R400:610d+R400:0a61 W")                               # lone CRs and LFs, no CRLF pair
     # the writer task is scheduled once while several events are queued (W<k> = up to k reads in one poll): events that
     # together exceed the 65528-byte read buffer, small bursts, bursts ending in the last sender's drop
     cases.append("sse S0,m,R40000:61 S0,m,R40000:62 W2 S0,m,x63 W")
